@@ -82,6 +82,13 @@ func load(dir, mod string, minPkgs int) *Ctx {
 	}
 	prog, spk := ssautil.AllPackages(pkgs, ssa.InstantiateGenerics)
 	prog.Build()
+	// an instantiation of a generic function belongs to the package of its origin (go/ssa leaves
+	// Pkg nil for instances): the rules compare packages to tell module helpers from library code
+	for fn := range ssautil.AllFunctions(prog) {
+		if fn.Pkg == nil && fn.Origin() != nil && fn.Origin().Pkg != nil {
+			fn.Pkg = fn.Origin().Pkg
+		}
+	}
 	c := &Ctx{repo: dir, modRoot: mod, fset: prog.Fset, pkgs: pkgs, prog: prog, spkgs: map[string]*ssa.Package{},
 		byPath: map[string]*packages.Package{}, files: map[*token.File]*ast.File{}}
 	for i, p := range pkgs {
